@@ -4,4 +4,4 @@
 L=$1; P=$2; N=$3; shift 3
 CH="${*:-$P}"
 mkdir -p /tmp/mut
-flock /tmp/mut/lane$L.lock /verif/tools/mutlane.sh $L /tmp/r3/$P/out/m$N/patch.diff quick $CH 2>&1 | sed "s/^/$P-m$N /" >> /tmp/r3/results.txt
+flock /tmp/mut/lane$L.lock /verif/tools/mutlane.sh $L /tmp/r3/$P/out/m$N/patch.diff quick $CH 2>&1 | sed "s/^/$P-m$N /" >> ${R3RESULTS:-/tmp/r3/results.txt}
